@@ -14,7 +14,7 @@ PROPS['C18'] = dict(
     level_text='Every vector of length <= 5 (quick) / <= 7 (thorough) over alphabets built to contain ties, signed zeros, sign pairs and '
                'conjugate pairs is enumerated for every rule and entry point and compared with a specification written from the SortRule '
                'documentation (permutation, key order, BothEnds prefix multiset, rejection of undefined rules); longer vectors are sampled, and so are vectors of values m*10^e over the whole exponent range of double '
-               '(denormals to the largest finite values: magnitudes whose squares leave the range). '
+               '(denormals to the largest finite values: magnitudes whose squares leave the range), and vectors of values that differ by one to six units in the last place (keys that are almost but not exactly equal). '
                'Exhaustive inside the stated bounds, sampling beyond them.',
     level_note='Trusts std::sort/IEEE comparisons in the oracle. complex x {LargestAlge, SmallestAlge, BothEnds} does not compile (operator< on '
                'std::complex) and is therefore rejected at compile time, not run.',
@@ -24,10 +24,10 @@ PROPS['C18'] = dict(
         thorough=[dict(unit='c18', cases=20000, workers='all', set=dict(exh_len=7, exh_part='{w}', exh_parts='{nw}'))],
     ),
     exhaustive_units=['c18'],
-    min=dict(quick=dict(cases=1000000, nontrivial=500000), thorough=dict(cases=20000000, nontrivial=10000000)),
+    min=dict(quick=dict(cases=1000000, nontrivial=500000, classes={'near_ties': 500, 'wide_range/huge': 150}), thorough=dict(cases=20000000, nontrivial=10000000)),
     rule='exhaustive layer: every vector of length 0..5 (quick) / 0..7 (thorough) over the real alphabet {-2,-1,-0.0,+0.0,1,1,2} '
          'and the complex alphabet {0,1,-1,i,-i,1+i,1-i,2} x 9 rules x {SortEigenvalue, argsort, argsort(len<size)}; rapidcheck layer: '
-         'lengths <= 200 with heavy ties, wide-range values (tiny / huge / any band, real and complex, length <= 24), plus solver-level rule dispatch. Non-trivial = the vector contains a tie in the rule key, '
+         'lengths <= 200 with heavy ties, wide-range values (tiny / huge / any band, real and complex, length <= 24), near ties (values a few ulp apart next to exactly equal ones, real and complex 3-4-5 multiples), plus solver-level rule dispatch. Non-trivial = the vector contains a tie in the rule key, '
          'or an undefined rule/type combination must be rejected; distinct = enumerated (distinct by construction) or 64-bit hash of the draw log.',
     tolerances='none (exact comparisons of keys)',
     assumptions=['std::sort and IEEE comparisons in the specification oracle'],
